@@ -55,7 +55,10 @@ def _case(draw, tier):
             "third_leg": draw(st.sampled_from([False, False, True])),
             # sparse: only ts[0], ts[-1] and the drawn inside times are requested (not every grid point), so nothing but
             # the solver's own dt grid can make the two passes take the same steps
-            "sparse": draw(st.booleans())}
+            "sparse": draw(st.booleans()),
+            # the reverse leg requested through sdeint_adjoint (documented to take extra_solver_state like sdeint; same
+            # forward values by C09)
+            "reverse_via_adjoint": draw(st.sampled_from([False, False, True]))}
 
 
 def strategy(tier):
@@ -86,9 +89,10 @@ def run_case(case):
         ys, (fT, gT, zT) = torchsde.sdeint(sde, y0, ts, bm=bm, method="reversible_heun", dt=dt, extra=True)
         f0, g0 = sde.f(ts[0], y0), sde.g(ts[0], y0)
         ts_rev = -ts.flip(0)
-        ys_rev, (fr, gr, zr) = torchsde.sdeint(Reversed(sde), ys[-1], ts_rev, bm=ReverseBrownian(bm),
-                                               method="reversible_heun", dt=dt, extra=True,
-                                               extra_solver_state=(-fT, -gT, zT))
+        rev_api = torchsde.sdeint_adjoint if case.get("reverse_via_adjoint") else torchsde.sdeint
+        ys_rev, (fr, gr, zr) = rev_api(Reversed(sde), ys[-1], ts_rev, bm=ReverseBrownian(bm),
+                                       method="reversible_heun", dt=dt, extra=True,
+                                       extra_solver_state=(-fT, -gT, zT))
         ys_again = None
         if case.get("third_leg"):
             # the reverse run reversed once more: SDE Reversed(Reversed(sde)) (= sde), Brownian motion reversed twice,
@@ -108,6 +112,7 @@ def run_case(case):
         (["outputs_inside_steps"] if case.get("dense") and not case.get("clip_frac") else []) + \
         (["asymmetric_outputs_inside_steps"] if case.get("inside") and not case.get("clip_frac") else []) + \
         (["third_leg_doubly_reversed_bm"] if case.get("third_leg") else []) + \
+        (["reverse_leg_via_sdeint_adjoint"] if case.get("reverse_via_adjoint") else []) + \
         (["sparse_outputs"] if case.get("sparse") and case.get("inside") and not case.get("clip_frac") else [])
     fail = None
     if not (e <= tol) or not bool(torch.isfinite(back).all()):
